@@ -657,6 +657,60 @@ Section AllHistories.
   Qed.
 End AllHistories.
 
+(* ------------------------------------------------------------------ interleaved reads *)
+(* In the model every read operation (get_children, get_parent, get_from_level, iteration, len) is
+   the identity on the state: the state after an interleaved history is the state after its
+   add_children calls alone, so every theorem above holds after EVERY operation of a history that
+   mixes reads and adds; and each answer is the query evaluated in the state reached so far. *)
+Lemma state_after_adds h : forall e, state_after e h = fold_left step (adds_of h) e.
+Proof.
+  induction h as [|[p cs|q] t IH]; intros e; simpl; [reflexivity| |]; apply IH.
+Qed.
+
+Lemma reads_identity_lemma :
+  (forall e q t, state_after e (HAsk q :: t) = state_after e t) /\
+  (forall roots h, state_after (init roots) h = run roots (adds_of h)) /\
+  (forall e h1 q h2, nth (length h1) (run_history e (h1 ++ HAsk q :: h2)) AErr = ask (state_after e h1) q) /\
+  (forall e h, length (run_history e h) = length h).
+Proof.
+  split; [reflexivity|]. split; [intros; apply state_after_adds|]. split.
+  - intros e h1. revert e. induction h1 as [|[p cs|q'] t IH]; intros e q h2; simpl.
+    + reflexivity.
+    + destruct (add_children e p cs) eqn:A; simpl; apply IH.
+    + apply IH.
+  - intros e h. revert e. induction h as [|[p cs|q] t IH]; intros e; simpl; [reflexivity| |].
+    + destruct (add_children e p cs); simpl; rewrite IH; reflexivity.
+    + rewrite IH. reflexivity.
+Qed.
+
+(* the in-Coq comparison used by the correspondence check is sound *)
+Lemma list_eqb_eq {A} (eqb : A -> A -> bool) :
+  (forall x y, eqb x y = true -> x = y) -> forall l1 l2, list_eqb eqb l1 l2 = true -> l1 = l2.
+Proof.
+  intros H. induction l1 as [|x t IH]; intros [|y u] E; simpl in E; try discriminate; [reflexivity|].
+  apply andb_true_iff in E. destruct E as [E1 E2]. f_equal; [apply H; assumption|apply IH; assumption].
+Qed.
+
+Lemma nat_eqb_eq x y : Nat.eqb x y = true -> x = y.
+Proof. apply Nat.eqb_eq. Qed.
+
+Lemma answer_eqb_eq a b : answer_eqb a b = true -> a = b.
+Proof.
+  destruct a as [|l|[x|]|n|r al c]; destruct b as [|l'|[y|]|m|r' al' c']; simpl; intros E; try discriminate; try reflexivity.
+  - f_equal. apply (list_eqb_eq Nat.eqb nat_eqb_eq); assumption.
+  - apply Nat.eqb_eq in E. subst. reflexivity.
+  - apply Nat.eqb_eq in E. subst. reflexivity.
+  - apply andb_true_iff in E. destruct E as [E E3]. apply andb_true_iff in E. destruct E as [E1 E2].
+    f_equal; [apply (list_eqb_eq Nat.eqb nat_eqb_eq); assumption|apply (list_eqb_eq Nat.eqb nat_eqb_eq); assumption|].
+    apply (list_eqb_eq (list_eqb Nat.eqb)); [apply (list_eqb_eq Nat.eqb nat_eqb_eq)|assumption].
+Qed.
+
+Lemma first_mismatch_none xs : forall ys k, first_mismatch xs ys k = None -> xs = ys.
+Proof.
+  induction xs as [|x t IH]; intros [|y u] k E; simpl in E; try discriminate; [reflexivity|].
+  destruct (answer_eqb x y) eqn:A; [|discriminate]. apply answer_eqb_eq in A. subst. f_equal. eapply IH; eassumption.
+Qed.
+
 (* ------------------------------------------------------------------ non-vacuity *)
 Definition ex_roots : list pid := [0; 1].
 Definition ex_ops : list op := [Add 0 [2; 3]; Add 2 [4]; Add 9 [5]; Add 1 []; Add 3 [5; 6]].
